@@ -1716,7 +1716,8 @@ def _judge_decode(res, out, tier):
         res.distinct_count += it["n"]
         for k, v in it["outcomes"].items():
             res.outcomes.add("decode:" + k)
-        res.part("decode:" + it["ns"], cache_bytes=it["len"], **{("prefixes" if it["mode"] != "header" else "header_perturbations"): it["n"]})
+        res.part("decode:" + it["ns"], **{("prefixes" if it["mode"] != "header" else "header_perturbations"): it["n"]})
+        res.part("decode:" + it["ns"], cache_len=str(it["len"]))
         for k, v in it["outcomes"].items():
             res.part("decode-outcomes", **{k: v})
         _agg_fail(res, "decode", it["ns"], it["fails"], {"mode": it["mode"]})
@@ -1801,7 +1802,7 @@ def run(tier, seed):
     res.part("seeds", served_from_cache=served_total)
     if caught:
         res.notes.append("exception types caught by the loader's fallback (%s): %s" % (caught[1], ", ".join(caught[0])))
-    res.part("decode:" + BIG, **{k: v for k, v in dinfo.items() if isinstance(v, int)})
+    res.part("decode:" + BIG, **{k: v for k, v in dinfo.items() if k in ("boundaries",)})
     # completeness of the exhaustive full-path scenarios
     for sc, spec, perturb, ex in shards:
         k = (sc[0], sc[1])
